@@ -34,8 +34,38 @@ def sw_true_false(t):
     return tt, ff
 
 
+def guard_edges(prog, f):
+    """blocks whose entry means the duplicate policy lets the write through: the true edge of allow_duplicates(), the false
+    edge of is_found() on the lookup result"""
+    out = []
+    for c in f.calls:
+        if c.name not in ('allow_duplicates', 'is_found'):
+            continue
+        carry = core.flows_forward(f, c.dest[0])
+        # a negation `!x` flips the edges
+        neg_locals = set()
+        for b in f.blocks:
+            if b['c']:
+                continue
+            for s in b['s']:
+                if s['k'] == 'a' and s['r']['k'] == 'un' and s['r']['op'] == 'Not' and op_local(s['r']['o']) in carry:
+                    neg_locals |= core.flows_forward(f, s['d'][0])
+        for j in f.reachable():
+            t = f.blocks[j]['t']
+            if t['k'] != 'switch' or op_local(t['o']) not in carry:
+                continue
+            tt, ff = sw_true_false(t)
+            neg = op_local(t['o']) in neg_locals
+            if c.name == 'allow_duplicates':
+                out.append(ff if neg else tt)
+            else:
+                out.append(tt if neg else ff)
+    return out
+
+
 def u1(ctx, rid):
     prog = ctx.prog
+    L, E = prog.may_reach()
     n = 0
     for f in prog.fns.values():
         if not f.file.startswith('src/storage/'):
@@ -45,43 +75,35 @@ def u1(ctx, rid):
                 continue
             n += 1
             key = 'duplicate-guard|%s' % prog.fns[f.id].root
-            ad = [x for x in f.calls if x.name == 'allow_duplicates']
-            found = [x for x in f.calls if x.name == 'is_found']
-            if not ad or not found:
-                ctx.bad(rid, key, c.where(), 'the append is not guarded by the duplicate policy (allow_duplicates / is_found test missing)')
+            ok, w = core.dominated_up(prog, f, c.bb, lambda g: guard_edges(prog, g), depth=3)
+            if not ok:
+                ctx.bad(rid, key, c.where(), 'the append is reachable on a path that did not pass the duplicate policy (allow_duplicates() true, or the key not found)', witness=w)
                 continue
-            # switch on allow_duplicates: on its false edge (duplicates disallowed) the is_found test must be evaluated;
-            # on the true edge of is_found the append is unreachable and an ok exit is reached
+            # in the function that holds the is_found test: on its true edge nothing that can reach the append runs, and Ok is returned
+            holders = [g for g in prog.fns.values() if g.file.startswith('src/storage/') and any(x.name == 'is_found' for x in g.calls) and any(x.name == 'allow_duplicates' for x in g.calls)]
             good = False
-            why = 'no branch on allow_duplicates() dominates the append'
-            for a in ad:
-                ca = core.flows_forward(f, a.dest[0])
-                for j in f.reachable():
-                    t = f.blocks[j]['t']
-                    if t['k'] != 'switch' or op_local(t['o']) not in ca or not f.dominates(j, c.bb):
+            why = 'no function tests allow_duplicates() together with is_found()'
+            for g in holders:
+                for x in g.calls:
+                    if x.name != 'is_found':
                         continue
-                    # `!allow_duplicates()` may be negated: find which edge leads to the is_found evaluation
-                    for x in found:
-                        cf = core.flows_forward(f, x.dest[0])
-                        for j2 in f.reachable():
-                            t2 = f.blocks[j2]['t']
-                            if t2['k'] != 'switch' or op_local(t2['o']) not in cf:
-                                continue
-                            tt, ff = sw_true_false(t2)
-                            reach_t = f.reach_from([tt])
-                            exits_ok = [bb for (bb, k, _) in core.exit_defs(f) if k in ('ok',) and bb in reach_t]
-                            if c.bb in reach_t:
-                                why = 'the append is reachable on the edge where the record was found with duplicates disallowed'
-                                continue
-                            if not exits_ok:
-                                why = 'the duplicate edge does not acknowledge the write (no ok-return)'
-                                continue
-                            if not f.dominates(j, j2) and j2 in f.reach_from([0], avoid_exit=[j]):
-                                why = 'is_found is not evaluated under the allow_duplicates branch'
-                                continue
+                    carry = core.flows_forward(g, x.dest[0])
+                    for j in g.reachable():
+                        t = g.blocks[j]['t']
+                        if t['k'] != 'switch' or op_local(t['o']) not in carry:
+                            continue
+                        tt, ff = sw_true_false(t)
+                        region = g.reach_from([tt])
+                        stores = [y for y in g.calls if y.bb in region and y.name != 'poll' and any(z == BLOB_WRITE or (z in prog.fns and BLOB_WRITE in L.get(z, ())) for z in prog.resolve(y))]
+                        oks = [bb for (bb, k, _) in core.exit_defs(g) if k == 'ok' and bb in region]
+                        if stores:
+                            why = 'on the `record found, duplicates disallowed` edge the write can still be stored (%s)' % stores[0].name
+                        elif not oks:
+                            why = 'the duplicate edge does not acknowledge the write (no ok-return)'
+                        else:
                             good = True
             if good:
-                ctx.ok(rid, key, c.where(), 'append dominated by the allow_duplicates() branch; on `found` it is unreachable and Ok is returned')
+                ctx.ok(rid, key, c.where(), 'append only reachable through the duplicate-policy edges (here or in every caller); a found duplicate returns Ok without storing')
             else:
                 ctx.bad(rid, key, c.where(), why)
     if n < 1:
